@@ -1,11 +1,146 @@
 (* props/C18.v - property C18: lattice ring product is negacyclic convolution; KEM correct, rejects tampering.
-   Only statements, each closed by `exact`, each followed by Print Assumptions. *)
+   Only statements, each closed by `exact`, each followed by Print Assumptions.
+   Model: coq/model/Lattice.v (field VALUES; tables from the regenerated gen/LatticeGen.v);
+   spec: coq/spec/LatticeSpec.v.  SHAKE256 / SHA3-256 are universally quantified functions. *)
 From Coq Require Import ZArith Bool List.
 From TF Require Import BFieldGen LatticeGen Lattice LatticeSpec LatticeProofs.
 Import ListNotations.
 Open Scope Z_scope.
 
+(* ---- the regenerated psi tables: table[i] = psi^bitrev6(i) with psi = table[32]; the inverse table holds the
+   inverses entry by entry; N_INV * 64 = 1; every evaluation point psi^(2 bitrev6(k) + 1) satisfies r^64 = -1 *)
+Theorem C18_psi_tables_ok :
+  length PSI_BITREV = 64%nat /\ length PSI_INV_BITREV = 64%nat /\
+  Forall canonical PSI_BITREV /\ Forall canonical PSI_INV_BITREV /\ canonical N_INV /\
+  (forall i, (i < 64)%nat -> nth i PSI_BITREV 0 = pow_mod (nth 32 PSI_BITREV 0) (bitrev 6 i)) /\
+  (forall i, (i < 64)%nat -> (nth i PSI_BITREV 0 * nth i PSI_INV_BITREV 0) mod P = 1) /\
+  (N_INV * 64) mod P = 1 /\
+  (forall k, (k < 64)%nat -> pow_mod (ntt_root (nth 32 PSI_BITREV 0) k) 64 = P - 1).
+Proof. exact psi_tables_ok_stated. Qed.
+Print Assumptions C18_psi_tables_ok.
+
+(* ---- both transforms are total on 64 coefficients (no index panic) and linear *)
+Theorem C18_coset_ntt_linear : forall a b c,
+  length a = 64%nat -> length b = 64%nat ->
+  exists fa fb, coset_ntt_noswap_64 a = Some fa /\ coset_ntt_noswap_64 b = Some fb /\
+    coset_ntt_noswap_64 (map2 fp_add a b) = Some (map2 fp_add fa fb) /\
+    coset_ntt_noswap_64 (map (fp_mul c) a) = Some (map (fp_mul c) fa).
+Proof. exact coset_ntt_linear. Qed.
+Print Assumptions C18_coset_ntt_linear.
+
+Theorem C18_coset_intt_linear : forall a b c,
+  length a = 64%nat -> length b = 64%nat ->
+  exists fa fb, coset_intt_noswap_64 a = Some fa /\ coset_intt_noswap_64 b = Some fb /\
+    coset_intt_noswap_64 (map2 fp_add a b) = Some (map2 fp_add fa fb) /\
+    coset_intt_noswap_64 (map (fp_mul c) a) = Some (map (fp_mul c) fa).
+Proof. exact coset_intt_linear. Qed.
+Print Assumptions C18_coset_intt_linear.
+
+(* ---- slot k of the forward transform is the evaluation a(psi^(2 bitrev6(k) + 1)) *)
+Theorem C18_coset_ntt_evaluates : forall a,
+  ring_elem a ->
+  coset_ntt_noswap_64 a = Some (map (fun k => zeval a (ntt_root (nth 32 PSI_BITREV 0) k) mod P) (seq 0 64)).
+Proof. exact coset_ntt_evaluates. Qed.
+Print Assumptions C18_coset_ntt_evaluates.
+
+Theorem C18_intt_ntt_id : forall a,
+  ring_elem a ->
+  match coset_ntt_noswap_64 a with Some f => coset_intt_noswap_64 f = Some a | None => False end.
+Proof. exact intt_ntt_id. Qed.
+Print Assumptions C18_intt_ntt_id.
+
+Theorem C18_ntt_intt_id : forall a,
+  ring_elem a ->
+  match coset_intt_noswap_64 a with Some f => coset_ntt_noswap_64 f = Some a | None => False end.
+Proof. exact ntt_intt_id. Qed.
+Print Assumptions C18_ntt_intt_id.
+
+(* ---- the ring product is the negacyclic convolution modulo X^64 + 1 over Z_p, for ALL pairs of ring elements *)
 Theorem C18_ring_mul_negacyclic : forall a b,
   ring_elem a -> ring_elem b -> re_mul a b = Some (negacyclic a b).
 Proof. exact ring_mul_negacyclic. Qed.
 Print Assumptions C18_ring_mul_negacyclic.
+Example C18_ring_elem_example : ring_elem (unit_vec 64 3) /\ ring_elem (negacyclic (unit_vec 64 3) (unit_vec 64 63)).
+Proof. exact ring_elem_example. Qed.
+
+(* ---- the three module multiplication strategies agree, and compute the matrix product over the ring *)
+Theorem C18_module_mults_agree : forall lh ln rw rn inner outn lhs rhs,
+  shape_ok (lh, ln, rw, rn, inner, outn) -> module_elem ln lhs -> module_elem rn rhs ->
+  let shape := (lh, ln, rw, rn, inner, outn) in
+  let product := module_product lh rw inner lhs rhs in
+  me_multiply shape lhs rhs = Some product /\
+  me_fast_multiply shape lhs rhs = Some product /\
+  match me_ntt lhs, me_ntt rhs with
+  | Some l, Some r => me_multiply_hadamard shape l r = me_ntt product
+  | _, _ => False
+  end.
+Proof. exact module_mults_agree. Qed.
+Print Assumptions C18_module_mults_agree.
+(* the shapes at the four KEM call sites (regenerated from the source) are consistent, and inhabited *)
+Example C18_kem_shapes_ok :
+  shape_ok SHAPE_GA /\ shape_ok SHAPE_BG /\ shape_ok SHAPE_BGA /\ shape_ok SHAPE_DEC /\
+  module_elem 4 (repeat (unit_vec 64 1) 4).
+Proof. exact kem_shapes_ok. Qed.
+
+(* ---- Ciphertext <-> [BFieldElement; 320] *)
+Theorem C18_ct_array_roundtrip :
+  (forall v, length v = 320%nat -> exists c, ct_of_array v = Some c /\ ct_wf c /\ array_of_ct c = Some v) /\
+  (forall c, ct_wf c -> exists v, array_of_ct c = Some v /\ length v = 320%nat /\ ct_of_array v = Some c).
+Proof. exact (conj ct_of_array_ok array_of_ct_ok). Qed.
+Print Assumptions C18_ct_array_roundtrip.
+
+(* ---- message embedding: lane-wise noise of absolute value <= 2^14 - 3 in each 16-bit lane is decoded away *)
+Theorem C18_embed_extract : forall msg e,
+  Forall byte msg -> length e = (2 * length msg)%nat -> Forall (lane_noise (EXTRACT_THRESHOLD - 3)) e ->
+  extract_msg (re_add (embed_msg msg) e) = Some msg.
+Proof. exact embed_extract. Qed.
+Print Assumptions C18_embed_extract.
+Example C18_lane_noise_example :
+  Forall byte [90; 255] /\ Forall (lane_noise (EXTRACT_THRESHOLD - 3)) [16381; P - 16381; 0; (16381 * 65536) mod P].
+Proof. exact lane_noise_example. Qed.
+
+(* ---- KEM.  dec returns Some (Some k) = accepted with key k, Some None = rejected, None = panic.
+   `reenc sk payload` is the deterministic re-encryption of `payload` under the public key derived from sk. *)
+Theorem C18_dec_accepts_only_reencryptions : forall shake256 sha3_256 sk c k,
+  dec shake256 sha3_256 sk c = Some (Some k) ->
+  exists payload,
+    dec_payload shake256 sk c = Some payload /\ reenc shake256 sk payload = Some c /\ k = sha3_256 payload.
+Proof. exact dec_accepts_only_reencryptions. Qed.
+Print Assumptions C18_dec_accepts_only_reencryptions.
+
+(* rejects tampering, precise form: a ciphertext differing from an honest one (in any coefficient) is accepted
+   only if it is itself the honest encapsulation of another payload *)
+Theorem C18_tampered_accepted_only_as_other_encapsulation : forall shake256 sha3_256 sk payload c c' k',
+  reenc shake256 sk payload = Some c -> c' <> c ->
+  dec shake256 sha3_256 sk c' = Some (Some k') ->
+  exists payload', payload' <> payload /\ reenc shake256 sk payload' = Some c' /\ k' = sha3_256 payload'.
+Proof. exact tampered_accepted_only_as_other_encapsulation. Qed.
+Print Assumptions C18_tampered_accepted_only_as_other_encapsulation.
+
+(* unrelated key: acceptance under ANY secret key means the ciphertext is a re-encryption under THAT key *)
+Theorem C18_dec_other_key : forall shake256 sha3_256 sk2 c k,
+  dec shake256 sha3_256 sk2 c = Some (Some k) ->
+  exists payload, reenc shake256 sk2 payload = Some c /\ k = sha3_256 payload.
+Proof. exact dec_other_key. Qed.
+Print Assumptions C18_dec_other_key.
+
+(* full statement of KEM correctness; it holds only up to the scheme's decryption-failure probability and is
+   therefore NOT a theorem about arbitrary seeds *)
+Definition C18_dec_enc_full : Prop :=
+  forall shake256 sha3_256 kg_randomness enc_randomness sk pk k ct,
+    keygen shake256 kg_randomness = Some (sk, pk) ->
+    enc shake256 sha3_256 pk enc_randomness = Some (k, ct) ->
+    dec shake256 sha3_256 sk ct = Some (Some k).
+(* proved part: correctness CONDITIONAL on the decoding condition (the payload extracted by dec is the
+   encapsulated one), which C18_embed_extract reduces to the lane-noise bound *)
+Theorem C18_dec_enc_partial : forall shake256 sha3_256 kg_randomness enc_randomness sk pk k ct,
+  keygen shake256 kg_randomness = Some (sk, pk) ->
+  enc shake256 sha3_256 pk enc_randomness = Some (k, ct) ->
+  dec_payload shake256 sk ct = Some (shake256 enc_randomness ENC_OUTPUT_LENGTH) ->
+  dec shake256 sha3_256 sk ct = Some (Some k).
+Proof. exact dec_enc_partial. Qed.
+Print Assumptions C18_dec_enc_partial.
+(* the hypotheses are satisfiable: a complete run with toy hash functions is accepted, decodes the payload,
+   and the same ciphertext with one coefficient changed by 1 is rejected (computed once in LatticeExamples.v) *)
+Example C18_kem_example : toy_kem_check = true.
+Proof. exact toy_kem_check_true. Qed.
